@@ -53,6 +53,9 @@ fn num(v: &Value, k: &str) -> Option<i64> {
 pub fn run(case: &Case) -> CaseReport {
     let mut rep = CaseReport::default();
     let Some(mut e) = Engine::new(&case.files, Mode::Wrapper, "C19", Checks::default(), &mut rep) else { return rep };
+    // sessions 0 and 1 are two conversations of the same tool and model: distinct session
+    // hashes in the note, one `tool::model` key in the breakdown
+    e.w.share_tool_model(0, 1);
     e.run_ops(&case.ops, &mut rep);
     e.run_ops(&[HOp::Commit], &mut rep);
     let commits: Vec<String> = e.all_commits().into_iter().collect();
